@@ -241,6 +241,37 @@ def rule_pool_guard(ctx):
         names, tab = W.table({"uncount": dec})
         ok = all((("uncount" in v) == (k[0] == "Some" and k[1] is False)) for k, v in tab.items()) and bool(dec)
         ctx.ob(R, "remove table", ok, "the extra count is decremented exactly for a present key outside `allowed`" if ok else "pool remove deviates: %s" % {k: sorted(v) for k, v in tab.items()}, g.loc())
+    # the value written: the counter moves by exactly one (a recomputation from other fields is a different
+    # mechanism - e.g. current.len() - allowed.len() is wrong whenever an allowed peer is offline - and needs review)
+    from .c07 import norm_arith
+
+    def unit_step(g, op):
+        Tg = ctx.T(g)
+        res = []
+        for bb in range(len(g.blocks)):
+            for names, kind, nd in Q.stmt_field_writes(g, bb, POOL):
+                if "extra_count" not in names:
+                    continue
+                if kind == "assign":
+                    v = norm_arith(Tg.rvalue(nd["r"]))
+                elif kind == "call-dest":
+                    v = Tg.call_term(nd)
+                else:
+                    res.append((False, "mutable borrow of extra_count"))
+                    continue
+                okv = False
+                if v[0] == "bin" and v[1] == op and chain(v[2])[1][-1:] == ["extra_count"] and v[3] == ("const", 1):
+                    okv = True
+                if v[0] == "call" and v[1] in ("usize::saturating_%s" % op.lower(), "usize::wrapping_%s" % op.lower()) and chain(v[2][0])[1][-1:] == ["extra_count"] and v[2][1] == ("const", 1):
+                    okv = True
+                res.append((okv, show(v)[:80]))
+        return res
+    for who, g0, op in (("insert", ctx.fn(POOLW + "::insert"), "Add"), ("remove", ctx.fn(POOLW + "::remove"), "Sub")):
+        rs = []
+        for g in common.family(ctx, g0, ("closure",)):
+            rs += unit_step(g, op)
+        ctx.ob(R, "%s: counter step" % who, bool(rs) and all(o for o, _ in rs), "extra_count %s 1" % ("+=" if op == "Add" else "-=") if rs and all(o for o, _ in rs) else
+               "PoolWatch::%s sets extra_count to %s instead of moving it by one: the number of non-configured peers admitted no longer matches the counter, so the quota is not enforced" % (who, [d for o, d in rs if not o][:2]), g0.loc())
     writers = set()
     for f in ctx.F.fns:
         if f.in_testonly():
